@@ -314,6 +314,9 @@ def ob_policy(tname, alt, cat, stored):
         claims.append(z3.BoolVal(o["new_scheme"] == dname))
         if D.has_rounds:
             d = M.default_cost(D, cat)
+            if o["new_rounds"] is None:
+                claims.append(z3.BoolVal(False))       # the new hash is not even of a scheme with a cost
+                o["new_rounds"] = 0
             nr = ZInt.lift(o["new_rounds"])
             vr = M.opt(D, cat, "vary_rounds")
             lo, hi = M.limits(D, cat)
@@ -388,18 +391,35 @@ def _viol(tname, alt, cat, stored, p, what, opts, present, schemes, correct, rng
 
 
 def replay_policy(tname, alt, cat, stored, cfg, stored_r, correct, draws):
-    """concrete re-run on the real code with real hashes; oracle = the statement on concrete numbers"""
+    """concrete re-run on the real code with real hashes; the oracle is the policy model (the statement) evaluated on the
+    witness numbers - never the context's own records"""
     import warnings
     import random
     from passlib.context import CryptContext
     import passlib.utils.handlers as uh
-    from passlib import registry
     names, symopts, alts = TEMPLATES[tname]
     kw = dict(schemes=list(names))
     kw.update(alts[alt])
     kw.update(cfg)
-    H = registry.get_crypt_handler(stored)
-    has_rounds = "rounds" in H.setting_kwds
+    schemes = [Scheme(n) for n in names]
+    byname = dict((x.name, x) for x in schemes)
+    S = byname[stored]
+    opts = {}
+    for k, v in cfg.items():
+        parts = k.split("__")
+        c, sn, key = (None, parts[0], parts[1]) if len(parts) == 2 else (parts[0], parts[1], parts[2])
+        opts[(c, sn, key)] = z3.IntVal(v)
+    ctxopts = {}
+    for k, v in alts[alt].items():
+        if k.startswith("admin__context__"):
+            ctxopts[("admin", k[len("admin__context__"):])] = v
+        else:
+            ctxopts[(None, k)] = v
+    M = Model(schemes, opts, ctxopts)
+
+    def val(e):
+        e = z3.simplify(e)
+        return e.as_long() if z3.is_int_value(e) else (True if z3.is_true(e) else False if z3.is_false(e) else None)
 
     class Seq(random.Random):
         def randint(self, lo, hi):
@@ -410,36 +430,55 @@ def replay_policy(tname, alt, cat, stored, cfg, stored_r, correct, draws):
         warnings.simplefilter("ignore")
         try:
             ctx = CryptContext(**kw)
-        except (ValueError, KeyError) as e:
+        except (ValueError, KeyError):
             return False          # constructor refusals are judged symbolically only
-        cheap = dict((n, CHEAP.get(n)) for n in names)
-        # stored hash at the witness cost when it is cheap enough, else judged through needs_update of a parsed instance
-        r = stored_r.get(stored)
+        if M.config_error():
+            return "the constructor accepts an inconsistent default/deprecated configuration %r" % (kw,)
+        for sc in schemes:
+            for c_ in (None, "admin"):
+                if sc.has_rounds and val(M.inconsistent(sc, c_)):
+                    return "the constructor accepts inconsistent cost limits for %s (category %r): %r" % (sc.name, c_, sorted(cfg.items()))
+        dname = M.default_scheme(cat)
+        D = byname[dname]
         try:
             uh.rng = Seq()
+            if ctx.default_scheme(category=cat) != dname:
+                return "default scheme for category %r is %r, the configuration says %r" % (cat, ctx.default_scheme(category=cat), dname)
             new = ctx.hash("right", category=cat)
-            if ctx.needs_update(new, category=cat):
-                lim = [(k, v) for k, v in sorted(cfg.items())]
-                return "a hash just produced (%s) needs an update under the same context/category; config %r" % (new[:30], lim)
-            if ctx.identify(new) != ctx.default_scheme(category=cat):
-                return "new hash %r is attributed to %r, default scheme is %r" % (new[:20], ctx.identify(new),
-                                                                                 ctx.default_scheme(category=cat))
-            if has_rounds and r is not None and (r <= 20000 or stored in ("bcrypt",) and r <= 6):
-                h = H.using(rounds=r).hash("right")
-                rec = ctx.handler(stored, category=cat)
-                lo, hi = rec.min_desired_rounds, rec.max_desired_rounds
-                dep = rec.deprecated
-                want = bool(dep or (lo and r < lo) or (hi and r > hi) or (stored == "bsdi_crypt" and r % 2 == 0))
+            if ctx.identify(new) != dname:
+                return "a new hash for category %r is a %s hash, default scheme is %r" % (cat, ctx.identify(new), dname)
+            if D.has_rounds:
+                nr = D.H.from_string(new).rounds
+                d = val(M.default_cost(D, cat))
+                vr = M.opt(D, cat, "vary_rounds")
+                vr = val(vr) if vr is not None else None
+                lo_, hi_ = M.limits(D, cat)
+                lo_, hi_ = (val(lo_) if lo_ is not None else None), (val(hi_) if hi_ is not None else None)
+                if (lo_ and nr < lo_) or (hi_ and nr > hi_ and dname != "bsdi_crypt"):
+                    return "a new %s hash for category %r has cost %d, outside the configured limits %r..%r" % (dname, cat, nr, lo_, hi_)
+                if d is not None:
+                    if vr is None and not (nr == d or (dname == "bsdi_crypt" and abs(nr - d) <= 1)):
+                        return "a new %s hash for category %r has cost %d, the configuration says %d" % (dname, cat, nr, d)
+                    if vr is not None and not (d - vr - 1 <= nr <= d + vr + 1):
+                        return "a new %s hash for category %r has cost %d, outside %d +- %d" % (dname, cat, nr, d, vr)
+            lo, hi = M.limits(D, cat) if D.has_rounds else (None, None)
+            fixable = not (dname == "bsdi_crypt" and hi is not None and val(hi) and val(hi) <= max(D.HMIN, val(lo) or 0) and max(D.HMIN, val(lo) or 0) % 2 == 0)
+            if fixable and ctx.needs_update(new, category=cat):
+                return "a hash just produced (%s) needs an update under the same context/category; config %r" % (new[:30], sorted(cfg.items()))
+            r = stored_r.get(stored)
+            if S.has_rounds and r is not None and (r <= 20000 or stored in ("bcrypt",) and r <= 6) or not S.has_rounds:
+                h = S.H.using(rounds=r).hash("right") if S.has_rounds else S.text
+                want = val(M.needs_update(S, cat, z3.IntVal(r if r is not None else 0)))
                 got = ctx.needs_update(h, category=cat)
-                if got != want:
-                    return "needs_update(%s hash with cost %d, category=%r) = %r; limits %r..%r deprecated=%r" % (
-                        stored, r, cat, got, lo, hi, dep)
+                if want is not None and got != want:
+                    return "needs_update(%s hash%s, category=%r) = %r, the configuration says %r" % (
+                        stored, (" with cost %d" % r) if r is not None else "", cat, got, want)
                 okv, repl = ctx.verify_and_update("right" if correct else "wrong", h, category=cat)
                 if not correct and (okv, repl) != (False, None):
                     return "verify_and_update(wrong password) = %r" % ((okv, repl),)
-                if correct and (okv is not True or (repl is not None) != want):
-                    return "verify_and_update(right password) = %r, update expected: %r" % ((okv, repl), want)
-                if repl is not None and (not ctx.verify("right", repl) or ctx.needs_update(repl, category=cat)):
+                if correct and want is not None and (okv is not True or (repl is not None) != want):
+                    return "verify_and_update(right password) = %r, update expected: %r" % ((okv, repl and repl[:20]), want)
+                if repl is not None and (not ctx.verify("right", repl, category=cat) or (fixable and ctx.needs_update(repl, category=cat))):
                     return "replacement hash does not verify or needs another update"
         finally:
             uh.rng = old
